@@ -1,1 +1,5 @@
-/-! Property theorems for C18 — placeholder until the property's model is built. -/
+import FcpptModel.Spec.C18
+/-! Property theorems for C18 — under construction. -/
+namespace Fcppt.C18
+theorem placeholder_partial : True := trivial
+end Fcppt.C18
